@@ -1,41 +1,116 @@
-(* Tcp — wire format, model runner and the trace oracle of the C05 TCP stream. Definitions only.
+(* Tcp — wire format, model runner and the trace oracle of the C05 transport streams (TCP, WebSocket,
+   QUIC). Definitions only.
 
-   case  = 9000 cfg n ev*      (cfg: harness-only configuration; address kinds are harness-only;
-                                a named peer p is 0 = no /p2p component, 1 + identity otherwise)
+   case  = (9000 + transport) cfg n ev*
+                               transport: 0 TCP, 1 WebSocket, 2 QUIC; cfg: harness-only configuration;
+                               an address is (kind, named): the kind says where it leads (harness-only)
+                               and what shape it has (`addr_of`: the multiaddress the harness builds, in
+                               the grammar of coq/C10/Model.v), a named peer p is 0 = no /p2p component,
+                               1 + identity otherwise. Whether the transport takes the address, and what
+                               peer the attempt expects, is decided by `expect_of` of Variants.v
    trace = 1 (outs dump)*      one group per event, see `enc_outs` / `dump` *)
 From Coq Require Import List NArith Bool.
 From V.common Require Import Wire.
-From V.Tcp Require Import Model.
+From V.C10 Require Model.
+From V.Tcp Require Import Model Variants.
 Import ListNotations.
 Open Scope N_scope.
 
 Definition STREAM_TAG : N := 9000.
 
-Definition p_addr : parser expect := let* _ := pN in let* p := pN in pret (dec_opt p).
+Definition transport_of_tag (tag : N) : option transport :=
+  if tag =? STREAM_TAG then Some TTcp
+  else if tag =? STREAM_TAG + 1 then Some TWs
+  else if tag =? STREAM_TAG + 2 then Some TQuic
+  else None.
 
-Definition p_ev : parser ev :=
+Definition is_stream_case (l : list N) : bool :=
+  match l with
+  | t :: _ => match transport_of_tag t with Some _ => true | None => false end
+  | [] => false
+  end.
+
+(* ---- the multiaddresses of the harness (harness/src/c05_tcp.rs `World::address`) ---- *)
+Definition lo : C10.Model.comp := C10.Model.Ip4 C10.Model.Loop 0.
+
+Definition with_name (p : N) (m : C10.Model.maddr) : C10.Model.maddr :=
+  match dec_opt p with Some q => m ++ [C10.Model.P2p q] | None => m end.
+
+(* an address of the transport's own shape (the port is the harness's business) *)
+Definition shaped (t : transport) (tls : bool) : C10.Model.maddr :=
+  match t with
+  | TTcp => [lo; C10.Model.Tcp 0]
+  | TWs => [lo; C10.Model.Tcp 0; if tls then C10.Model.Wss else C10.Model.Ws]
+  | TQuic => [lo; C10.Model.Udp 0; C10.Model.QuicV1]
+  end.
+
+(* a transport-level protocol no socket transport has *)
+Definition malformed (t : transport) : C10.Model.maddr :=
+  match t with
+  | TQuic => [lo; C10.Model.Tcp 4001; C10.Model.Other 0]
+  | _ => [lo; C10.Model.Udp 4001]
+  end.
+
+(* a well-formed address of another transport: ws-shaped for TCP, tcp-shaped for WebSocket / QUIC *)
+Definition foreign (t : transport) : C10.Model.maddr :=
+  match t with
+  | TTcp => [lo; C10.Model.Tcp 1; C10.Model.Ws]
+  | _ => [lo; C10.Model.Tcp 1]
+  end.
+
+(* kind: 0 gate to node A, 1 closed port, 2 malformed, 3 gate to node B, 4 another transport's
+   address, 5 gate to node A through /wss (WebSocket only) *)
+Definition addr_of (t : transport) (k p : N) : C10.Model.maddr :=
+  match k with
+  | 0 | 1 | 3 => with_name p (shaped t false)
+  | 4 => with_name p (foreign t)
+  | 5 => match t with TWs => with_name p (shaped t true) | _ => malformed t end
+  | _ => malformed t
+  end.
+
+Definition p_addr (t : transport) : parser C10.Model.maddr :=
+  let* k := pN in let* p := pN in pret (addr_of t k p).
+
+Definition p_call (t : transport) : parser tcall :=
   let* tag := pN in
   match tag with
-  | 0 => pret EDraw
-  | 1 => let* c := pN in let* k := pN in let* p := pN in
-         pret (EDial c (negb (k =? 2)) (dec_opt p))                 (* kind 2: malformed address *)
-  | 2 => let* c := pN in let* es := plist p_addr in pret (EOpen c es)
-  | 3 => let* c := pN in pret (ENegotiate c)
-  | 4 => let* c := pN in pret (ECancel c)
-  | 5 => let* c := pN in pret (EAccept c)
-  | 6 => let* c := pN in pret (EReject c)
-  | 7 => let* c := pN in pret (EAcceptPending c)
-  | 8 => let* c := pN in pret (ERejectPending c)
-  | 9 => pret EPoll
-  | 10 => let* _ := pN in pret EInbound
-  | 11 => let* f := pN in let* i := pN in let* r := pN in pret (EAns f i (dec_opt r))
-  | 12 => let* f := pN in pret (EExpire f)
+  | 0 => pret (XEv EDraw)
+  | 1 => let* c := pN in let* a := p_addr t in pret (XDial c a)
+  | 2 => let* c := pN in let* l := plist (p_addr t) in pret (XOpen c l)
+  | 3 => let* c := pN in pret (XEv (ENegotiate c))
+  | 4 => let* c := pN in pret (XEv (ECancel c))
+  | 5 => let* c := pN in pret (XEv (EAccept c))
+  | 6 => let* c := pN in pret (XEv (EReject c))
+  | 7 => let* c := pN in pret (XEv (EAcceptPending c))
+  | 8 => let* c := pN in pret (XEv (ERejectPending c))
+  | 9 => pret (XEv EPoll)
+  | 10 => let* _ := pN in pret (XEv EInbound)
+  | 11 => let* f := pN in let* i := pN in let* r := pN in pret (XEv (EAns f i (dec_opt r)))
+  | 12 => let* f := pN in
+          if has_deadline t then pret (XEv (EExpire f)) else pfail   (* QUIC: no overall deadline *)
   | _ => pfail
   end.
 
-Definition decode_case (l : list N) : option (list ev) :=
-  pall (let* tag := pN in
-        if tag =? STREAM_TAG then let* _ := pN in plist p_ev else pfail) l.
+Definition decode_calls (l : list N) : option (transport * list tcall) :=
+  match l with
+  | tag :: _ =>
+      match transport_of_tag tag with
+      | Some t =>
+          match pall (let* _ := pN in let* _ := pN in plist (p_call t)) l with
+          | Some ks => Some (t, ks)
+          | None => None
+          end
+      | None => None
+      end
+  | [] => None
+  end.
+
+(* the events of the bookkeeping model *)
+Definition decode_case (l : list N) : option (transport * list ev) :=
+  match decode_calls l with
+  | Some (t, ks) => Some (t, map (ev_of t) ks)
+  | None => None
+  end.
 
 (* ---- outputs ---- *)
 Definition enc_out (o : outp) : list (N * (N * N)) :=
@@ -53,26 +128,47 @@ Definition enc_out (o : outp) : list (N * (N * N)) :=
   | OMark (MAbortedLate _) => []           (* nothing is logged on that path *)
   end.
 
-Definition enc_outs (os : list outp) : list N :=
-  enc_list (fun p : N * (N * N) => [fst p; fst (snd p); snd (snd p)]) (flat_map enc_out os).
+(* quic/mod.rs on_connection_established has no log line of its own for a failure without a
+   pending_dials entry (its debug line is the same with and without one): nothing to observe *)
+Definition logged (t : transport) (o : outp) : bool :=
+  match t, o with
+  | TQuic, OMark (MSilentFailure _ _) => false
+  | _, _ => true
+  end.
+
+Definition enc_outs (t : transport) (os : list outp) : list N :=
+  enc_list (fun p : N * (N * N) => [fst p; fst (snd p); snd (snd p)])
+           (flat_map enc_out (filter (logged t) os)).
 
 Definition enc_set (l : list N) : list N := enc_list (fun k => [k]) (sort_by (fun k => k) l).
 
-Definition dump (s : tcp) : list N :=
-  [ctr s] ++ enc_set (pending_dials s) ++ enc_set (pending_inbound s) ++
+(* tcp/mod.rs and websocket/mod.rs carry the dialled address of a connection opened by `open` inside
+   the NegotiatedConnection; quic/mod.rs keeps it in `pending_dials` from negotiate(c) until the future
+   pushed by negotiate is polled (that entry is what makes the endpoint a dialer): the map of the QUIC
+   code is the model's plus the ids of the pending negotiate futures *)
+Definition dials_of (t : transport) (s : tcp) : list conn :=
+  match t with
+  | TQuic => fold_left (fun acc (x : fut * (conn * kind)) =>
+                          match snd (snd x) with KNeg => add (fst (snd x)) acc | _ => acc end)
+                       (pconn s) (pending_dials s)
+  | _ => pending_dials s
+  end.
+
+Definition dump (t : transport) (s : tcp) : list N :=
+  [ctr s] ++ enc_set (dials_of t s) ++ enc_set (pending_inbound s) ++
   [N.of_nat (length (praw s)); N.of_nat (length (pconn s))] ++ enc_set (opened s) ++
   enc_list (fun p : N * N => [fst p; b2n (mem (snd p) (aborted s))]) (sort_by fst (cancel_futures s)) ++
   enc_set (pending_open s).
 
-Fixpoint run_trace (s : tcp) (es : list ev) : list N :=
-  match es with
+Fixpoint run_trace (t : transport) (s : tcp) (ks : list tcall) : list N :=
+  match ks with
   | [] => []
-  | e :: t => let '(s1, os) := step s e in enc_outs os ++ dump s1 ++ run_trace s1 t
+  | k :: r => let '(s1, os) := tstep t s k in enc_outs t os ++ dump t s1 ++ run_trace t s1 r
   end.
 
 Definition run_case (l : list N) : list N :=
-  match decode_case l with
-  | Some es => 1 :: run_trace init es
+  match decode_calls l with
+  | Some (t, ks) => 1 :: run_trace t init ks
   | None => [0]
   end.
 
@@ -251,7 +347,7 @@ Fixpoint trace_ok (es : list ev) (tr : list (list (N * (N * N)) * N)) (st : ost)
 
 Definition prop_ok (case trace : list N) : bool :=
   match decode_case case with
-  | Some es =>
+  | Some (_, es) =>
       match decode_trace (length es) trace with
       | Some tr => trace_ok es tr o0
       | None => false
